@@ -288,8 +288,8 @@ class Burst(BytesInterface):
     @staticmethod
     def from_hytera_ipsc(ipsc: Union[bytes, IpSiteConnectProtocol]) -> "Burst":
         ipsc: HyteraIPSC = (
-            HyteraIPSC.from_ipsc_bytes(ipsc)
-            if isinstance(ipsc, bytes)
+            HyteraIPSC.from_ipsc_bytes(bytes(ipsc))
+            if isinstance(ipsc, (bytes, bytearray, memoryview))
             else HyteraIPSC.from_kaitai(ipsc)
         )
 
